@@ -4,6 +4,7 @@
 -/
 import Cgp.GatewaySpec
 import Cgp.Proofs.C03
+import Cgp.Toy
 namespace Cgp.Props.C03
 open Cgp Cgp.Xdr Cgp.Gateway
 
@@ -140,5 +141,57 @@ example : WellFormed ⟨[⟨[1], 3⟩, ⟨[2], 4⟩], 7, []⟩ := by
   · intro s hs
     simp at hs
     rcases hs with rfl | rfl <;> simp
+
+/-! ### non-vacuity (the model RUN in the kernel on a concrete history, toy hash) -/
+section NonVacuity
+open Cgp.Toy
+
+def wsA : WSigners := ws0
+def opsR : List (Op Unit) :=
+  [ .rotate [] wsC pfB false,            -- proof by the latest set: accepted, epoch 3
+    .rotate [] wsA pfC false,            -- a set that was installed before: refused
+    .rotate [] wsD pfB false,            -- proof by a retained but no longer latest set: refused
+    .rotate [] wsBad pfC false,          -- malformed set: refused
+    .rotate [] wsD pfB true ]            -- bypass without the operator's authorisation: refused
+
+set_option maxRecDepth 8000 in
+/-- the hypotheses of `GInv_construct`, `GInv_run`, `GInv_reachable`, `rotate_effect` and `failed_rotation_unchanged` are
+    satisfiable: a gateway constructed with two sets (epoch 2) is rotated to a third by a proof of the latest set (epoch 3);
+    a repeated set, a proof by an older set, a malformed set and an unauthorised bypass are refused, each for its own reason.
+    The resulting world is `Reachable` (witnesses given), exactly the epochs 1..3 are installed and the lookups are mutually
+    inverse at the new epoch. -/
+theorem rotation_history_nonvacuous :
+    ∃ w0, constructed H0 owner0 owner0 [1] 0 5 [wsA, wsB] 5 = some w0 ∧
+      (∃ st evs, construct H0 owner0 owner0 [1] 0 5 [wsA, wsB] 5 = .ok (st, evs)) ∧
+      GInv H0 w0.st ∧
+      Reachable H0 V0 (run H0 V0 w0 opsR).1 ∧
+      -- `rotate_effect`: a successful rotation; `failed_rotation_unchanged`: a failed one
+      (∃ st' evs, rotateSigners H0 V0 w0.st [] wsC pfB false w0.now = .ok (st', evs)) ∧
+      (step H0 V0 (run H0 V0 w0 (opsR.take 1)).1 (.rotate [] wsA pfC false)).2 = .err .duplicateSigners ∧
+      WellFormed wsC ∧ ¬ WellFormed wsBad ∧
+      -- the history
+      w0.st.epoch = 2 ∧
+      (run H0 V0 w0 opsR).2.map gwErr =
+        [none, some .duplicateSigners, some .notLatestSigners, some .invalidThreshold, some .unauthorized] ∧
+      (run H0 V0 w0 opsR).2.map gwEvents = [1, 0, 0, 0, 0] ∧
+      (run H0 V0 w0 opsR).1.st.epoch = 3 ∧
+      (List.range 6).map (fun e => ((run H0 V0 w0 opsR).1.st.hashByEpoch e).isSome) = [false, true, true, true, false, false] ∧
+      (run H0 V0 w0 opsR).1.st.hashByEpoch 3 = some (signersHash H0 wsC) ∧
+      (run H0 V0 w0 opsR).1.st.epochByHash (signersHash H0 wsC) = some 3 ∧
+      [wsA, wsB, wsC].map (fun ws => (run H0 V0 w0 opsR).1.st.epochByHash (signersHash H0 ws)) = [some 1, some 2, some 3] ∧
+      (run H0 V0 w0 opsR).1.st.lastRot = some 5 := by
+  refine ⟨_, rfl, ⟨_, _, rfl⟩, ?_, ?_, ?_, ?_, ?_, ?_, ?_⟩
+  · exact (GInv_construct H0 owner0 owner0 [1] 0 5 [wsA, wsB] 5 _ _ rfl).1
+  · exact ⟨owner0, owner0, [1], 0, 5, [wsA, wsB], 5, _, opsR, rfl, rfl⟩
+  · exact exists_ok_pair_of_isOk _ (by decide +kernel)
+  · exact err_of_gwErr _ _ (by decide +kernel)
+  · exact (validateSigners_iff_wellFormed wsC).1 ((eq_ok_unit_iff_isOk _).2 (by decide +kernel))
+  · intro h
+    have := (eq_ok_unit_iff_isOk _).1 ((validateSigners_iff_wellFormed wsBad).2 h)
+    revert this
+    decide +kernel
+  · decide +kernel
+
+end NonVacuity
 
 end Cgp.Props.C03
